@@ -28,6 +28,7 @@ func checkC09(p *Prog, r *Report) {
 	ruleC09Shared(p, a, r)
 	ruleC09SortOrder(p, a, r)
 	ruleC09SortTotal(p, a, r)
+	ruleC09StateOnce(p, a, r)
 }
 
 func ruleC09State(p *Prog, a *Anchors, r *Report) {
@@ -212,6 +213,49 @@ func ruleC09Shared(p *Prog, a *Anchors, r *Report) {
 				handed = false
 			}
 			_ = caller
+		}
+		// … all the way from the tags: a function that has an execution context of its own (a node's Execute) and starts
+		// a nested execution — directly or through the delegating wrappers — hands over exactly that context, on
+		// every path (not nil for one form of the tag: {% include … only %} is part of the rendering, too)
+		type hop struct {
+			fn  *ssa.Function
+			idx int
+		}
+		seenHop := map[*ssa.Function]bool{ex: true}
+		work := []hop{{ex, indexOfParam(ex, from)}}
+		for len(work) > 0 {
+			h := work[0]
+			work = work[1:]
+			for _, e := range p.Callers(p.CG, h.fn) {
+				site, isInstr := e.Site.(ssa.Instruction)
+				caller := e.Site.Parent()
+				args := callArgs(e.Site.Common())
+				if !isInstr || caller == nil || !p.InPkg(caller) || h.idx >= len(args) {
+					continue
+				}
+				arg := unspillParam(args[h.idx])
+				own := paramOfType(topLevel(caller), types.NewPointer(a.ExecCtx))
+				if pa, isP := arg.(*ssa.Parameter); isP && pa.Parent() == caller && caller.Signature.Recv() != nil && structOf(caller.Signature.Recv().Type()) == a.Template {
+					// a delegating wrapper (a method of the template that passes its parameter on): follow its callers
+					if !seenHop[caller] {
+						seenHop[caller] = true
+						work = append(work, hop{caller, indexOfParam(caller, pa)})
+					}
+					continue
+				}
+				if own == nil || topLevel(caller) != caller {
+					continue // an entry point of the library: no executing context
+				}
+				if structOf(caller.Signature.Recv().Type()) == a.Template {
+					continue
+				}
+				hkey := p.FuncName(caller) + ":hands-context-on"
+				if arg == ssa.Value(own) {
+					r.OK(hkey, p.InstrPos(site), "the nested execution is handed the context of the tag that starts it")
+				} else {
+					r.Bad(hkey, p.InstrPos(site), "%s starts a nested execution without handing over its own context on every path (argument: %s): that execution is a rendering of its own — cycle and ifchanged in the included template start anew in every pass of a loop, and the macro depth counts from zero", p.FuncName(caller), p.VN(args[h.idx]))
+				}
+			}
 		}
 		switch {
 		case !taken:
